@@ -4,6 +4,8 @@ import numpy as np
 import torch
 
 from . import train_common as T
+from ..kernel.seam import Seam
+import torchphysics as tp
 
 PROP = "C07"
 LEVEL = "model_checking"
@@ -28,7 +30,59 @@ def items(tier):
     out = []
     for s in subsets:
         out.append({"name": "+".join(s), "kinds": s, "tier": tier, "cost": len(s)})
+    # every ordered selection of 1..3 validation conditions with mixed gradient needs inside ONE validation step
+    for r in (1, 2, 3):
+        for sel in itertools.permutations(VAL_MENU, r):
+            out.append({"name": "validation-mix:" + "+".join(sel), "val_mix": list(sel), "kinds": ["pinn_static"], "tier": tier, "cost": 1})
     return out
+
+
+VAL_MENU = ["val_data", "val_pinn", "val_deriv"]
+
+
+def run_val_mix(item, res, viol):
+    """trainer.validate of a Solver with the selected validation conditions: every logged value equals the value of the same
+    condition built and evaluated alone (fresh world, same initial weights), and no learnable tensor changes"""
+    sel = item["val_mix"]
+    expected = {}
+    for k in sel:
+        w0 = T.World()
+        c = w0.make(k)
+        with Seam(budget=100000):
+            torch.set_grad_enabled(c.track_gradients is not False)
+            try:
+                expected[k] = float(c(device="cpu"))
+            finally:
+                torch.set_grad_enabled(True)
+    w = T.World()
+    conds = [w.make("pinn_static")]
+    vconds = [w.make(k) for k in sel]
+    before = {k: v.detach().clone() for k, v in w.model.state_dict().items()}
+    solver = tp.solver.Solver(conds, val_conditions=vconds)
+    tr = T.make_trainer(1, val=True)
+    res["evals"] += 1
+    try:
+        with Seam(budget=100000):
+            tr.validate(solver, verbose=False)
+    except Exception as e:
+        viol("C07|error|%s|solver|validation-mix" % type(e).__name__, "trainer.validate with validation conditions %s failed: %s" % (sel, str(e)[:200]))
+        torch.set_grad_enabled(True)
+        return res
+    torch.set_grad_enabled(True)
+    got = {k: float(v) for k, v in tr.callback_metrics.items()}
+    for k in sel:
+        res["transitions"] += 1
+        v = got.get("val/" + k)
+        if v is None or abs(v - expected[k]) > 1e-6 * max(1.0, abs(expected[k])):
+            viol("C07|validation-value", "validation conditions %s: logged val/%s = %s, the condition alone gives %s" % (sel, k, v, expected[k]))
+        else:
+            res["outcomes"].append("%s=%.6g" % (k, v))
+    after = w.model.state_dict()
+    bad = [k for k in before if not torch.equal(before[k], after[k])]
+    if bad:
+        viol("C07|validation-changes-state", "trainer.validate with %s changed %s" % (sel, bad))
+    res["states"].append("valmix:" + "+".join(sel))
+    return res
 
 
 def adaptive_first_step(kinds, wts, after, named, w):
@@ -69,6 +123,8 @@ def run_item(item):
             return
         seen.add(key)
         res["violations"].append({"key": key, "what": "%s: %s" % (item["name"], what), "detail": {"item": item["name"]}})
+    if "val_mix" in item:
+        return run_val_mix(item, res, viol)
     base_final = {}
     for wts in WEIGHTS:
         wts = list(wts[:len(kinds)])
